@@ -161,3 +161,6 @@ package bytecode
 //@   ensures kind: result is Branch && len((result as Branch).Branches) == len(i.Branches)
 //@   ensures shifted: forall k :: { (result as Branch).Branches[k] } 0 <= k && k < len(i.Branches) ==> (result as Branch).Branches[k] == old(i.Branches[k]) + offset
 //@   ensures pure: forall k :: { i.Branches[k] } 0 <= k && k < len(i.Branches) ==> i.Branches[k] == old(i.Branches[k])
+//@   loop 1 invariant fresh(branches) && len(branches) == len(i.Branches) && i.Branches == old(i.Branches) && rangeindex < len(i.Branches)
+//@   loop 1 invariant forall k :: { branches[k] } 0 <= k && k <= rangeindex ==> branches[k] == i.Branches[k] + offset
+//@   loop 1 invariant forall k :: { i.Branches[k] } 0 <= k && k < len(i.Branches) ==> i.Branches[k] == old(i.Branches[k])
